@@ -112,10 +112,55 @@ class CFG:
                     if not live and t.kind not in ("ret", "resume", "terminate", "call", "tailcall"):
                         dead.add(i)
         self.dead = dead
+        self.threaded = []
+        self._jump_thread()
         for i in range(self.n):
             for e in self.succ[i]:
                 self.pred[e.dst].append(e)
         self.entry = 0
+
+    def _jump_thread(self):
+        """A block with no statements that switches on a local whose value every `goto` predecessor has
+        just set to a constant (matches!, && / || lowering) is bypassed: P -> B -> T(c) becomes P -> T(c)."""
+        body = self.body
+        for b in range(self.n):
+            blk = body.blocks[b]
+            t = blk.term
+            if t.kind != "switch" or blk.stmts or b in self.dead:
+                continue
+            d = Operand(t.raw["d"])
+            if d.place is None or not d.place.is_local:
+                continue
+            L = d.place.local
+            targets = {}
+            other = None
+            for e in self.succ[b]:
+                if e.label[1] == "otherwise":
+                    other = e.dst
+                else:
+                    targets[e.label[1]] = e.dst
+            for p in range(self.n):
+                if p == b:
+                    continue
+                es = self.succ.get(p, [])
+                for k, e in enumerate(es):
+                    if e.dst != b or e.label != "goto":
+                        continue
+                    val = None
+                    for s in body.blocks[p].stmts:
+                        if s.kind == "assign" and s.lhs.local == L:
+                            val = None
+                            if s.lhs.is_local and s.rv["k"] == "use":
+                                op = Operand(s.rv["a"])
+                                if op.is_const and op.int_value() is not None:
+                                    val = op.int_value()
+                    if val is None:
+                        continue
+                    tgt = targets.get(val, other)
+                    if tgt is None:
+                        continue
+                    es[k] = Edge(p, tgt, "goto")
+                    self.threaded.append((p, b, tgt))
 
     # ---------------------------------------------------------------- PRUNE
     def _variant_analysis(self):
